@@ -117,6 +117,35 @@ def main():
         undecided(str(e))
 
     known = load_known()
+    # ---- the cone of the property: the declared functions (tools/props.py) CLOSED UNDER CALLS.  A function that a scoped function calls
+    # (directly or through other functions under contract, in any unit of the cone) is verified against its contract only, so the
+    # property's proof depends on that contract: a failure there counts against this property too.
+    fn2contract, text_of, unit_contracts = {}, {}, {}
+    for un, (u, runs, wall) in results.items():
+        ul = u.text.split('\n')
+        for sg in u.segments:
+            if sg['kind'] == 'verify':
+                fn2contract.setdefault(sg['fn'], set()).add(sg['name'])
+                text_of[sg['name']] = '\n'.join(ul[sg['gline0'] - 1:sg['gline1']])
+                unit_contracts.setdefault(un, set()).add(sg['name'])
+            elif sg['kind'] == 'assume':
+                fn2contract.setdefault(sg['fn'], set()).add(sg['name'])
+    declared = prop.get('functions', {})
+    cone = set()
+    for un in results:
+        sc = declared.get(un)
+        cone |= (unit_contracts.get(un, set()) if sc is None else set(sc))
+    work = list(cone) if prop.get('closure', True) else []
+    while work:
+        c0 = work.pop()
+        body = text_of.get(c0, '')
+        for fname, cs in fn2contract.items():
+            if cs <= cone:
+                continue
+            if re.search(r'\b' + re.escape(fname) + r'\s*(?:::\s*<[^>]*>\s*)?\(', body) and c0 not in cs:
+                for c1 in cs - cone:
+                    cone.add(c1)
+                    work.append(c1)
     violations, knowns_hit, others, vac_missing, unstable = [], [], [], [], []
     stub_blocked = []
     obligations = discharged = 0
@@ -194,12 +223,10 @@ def main():
         n_real_err = len({(d['owner'], d['clause']) for d in real})
         known_here = [d for d in real if match_known(known, pid, d)]
         # obligations that fail because of a recorded finding are listed separately (known_findings_hit), not counted
-        scope0 = prop.get('functions', {}).get(un)
-        obligations += n_ver + len({d['owner'] for d in real if d not in known_here and (scope0 is None or d['owner'] in scope0)})
+        obligations += n_ver + len({d['owner'] for d in real if d not in known_here and d['owner'] in cone})
         discharged += n_ver
         if n_ver == 0:
             undecided(f'unit {un}: zero obligations (vacuity guard i)')
-        scope = prop.get('functions', {}).get(un)
         for d in real:
             if d['owner'] is None or d['owner_kind'] not in ('verify',):
                 # a failing lemma of the spec layer: proof infrastructure, not repo code
@@ -207,7 +234,7 @@ def main():
             # attribution: a failed obligation of function F counts against every property whose cone
             # contains F (props.py: 'functions' narrows a unit to the listed contracts; absent = all);
             # the [Cxx] tags on clauses are informational only
-            if scope is not None and d['owner'] not in scope:
+            if d['owner'] not in cone:
                 others.append(d)
                 continue
             k = match_known(known, pid, d)
@@ -300,6 +327,7 @@ def main():
             'solver_time_ms': smt_ms,
             'functions_under_contract': fn_rows,
             'functions_proved': sum(1 for r in fn_rows if r['status'] == 'proved'),
+            'cone_functions': sorted(cone),
             'functions_trusted': [r['contract'] for r in fn_rows if r['status'].startswith('trusted')],
             'rewrite_rules_applied': rule_log,
             'unchecked_items_in_units': trusted_all,
